@@ -8,9 +8,9 @@ from .common import (public_functions, construct, fsite, csite, direct_calls, in
 from .c14 import state_term
 
 TITLE = ("Ownership typestate over init/cleanup pairs (paired by unit and handle type): (R1) each back-end init makes "
-         "exactly one allocation and stores it into obj->ctx on every success path; (R2) the argument of free() is the "
+         "exactly one allocation and stores it into obj->ctx on every success path; (R2) for every release a cleanup performs, directly or through a helper, the argument of free() is the "
          "exact allocation base - obj->ctx for calloc contexts, the base_ptr field written by the paired init from "
-         "skinny_calloc's out-parameter for aligned contexts (never the aligned interior pointer); (R3) obj->ctx := NULL "
+         "skinny_calloc's out-parameter for aligned contexts (never the aligned interior pointer), fetched before any write that may reach the place it is stored in; (R3) obj->ctx := NULL "
          "post-dominates free(), nothing touches the freed block afterwards, and the public CTR cleanup also clears vtable; "
          "(R4) every other entry point dereferences ctx/vtable only under a non-null test of the field cleanup clears; "
          "(R5) every free() is guarded by that same test, so cleanup is null-safe and idempotent; (R6) init reads nothing "
